@@ -60,6 +60,7 @@ type world struct {
 	randomMix  []string // type multiset for PRNG sequences
 	randStream string
 	cds, eds   string // the pair with the documented "EDS is answered again after a CDS (re)open" dependency
+	health     bool   // the alphabet also has the workload health probe letters; only sequences with a probe are enumerated
 }
 
 // edsOf returns the short name of the type that gets a forced response after t was (re)opened, or "".
@@ -163,6 +164,18 @@ var worlds = map[string]*world{
 		types: []string{"CDS", "EDS", "LDS", "RDS", "NDS"}, recordTys: []string{"EDS", "RDS"},
 		node: legacyNode, cds: "CDS", eds: "EDS",
 	},
+	// the legacy world once more, with the workload health probe as a letter that may stand anywhere, first included
+	"hp": {
+		name: "hp", serverKind: "legacy", protos: []string{"sotw", "delta"}, health: true,
+		types: []string{"CDS", "EDS", "LDS", "RDS", "NDS"}, enumTypes: []string{"EDS", "RDS", "CDS", "LDS", "NDS"}, recordTys: []string{"EDS", "RDS"},
+		node: legacyNode, cds: "CDS", eds: "EDS",
+		warm: map[string][]warmStep{"warmed": {
+			{t: "CDS"}, {t: "EDS", ns: namesOfLit("EDS", 2)}, {t: "LDS"}, {t: "RDS", ns: namesOfLit("RDS", 2)},
+		}},
+		warmOrder:  []string{"warmed"},
+		randomMix:  []string{"EDS", "RDS", "CDS", "LDS", "NDS", "EDS", "RDS"},
+		randStream: "random-hp",
+	},
 	"ecds": {
 		name: "ecds", serverKind: "ext", protos: []string{"sotw", "delta"},
 		types: []string{"CDS", "EDS", "LDS", "RDS", "NDS", "ECDS"}, enumTypes: []string{"ECDS"}, recordTys: []string{"EDS", "RDS", "ECDS"},
@@ -234,7 +247,7 @@ var worlds = map[string]*world{
 			return xdsshim.Node("sidecar", fmt.Sprintf("10.14.%d.%d", conID/250%250, conID%250+1), fmt.Sprintf("app-%d", conID), sdsNS,
 				map[string]any{"GENERATOR": "api", "CLUSTER_ID": "Kubernetes", "SERVICE_ACCOUNT": sdsSA})
 		},
-		cred: &credential{Identities: []string{"spiffe://cluster.local/ns/" + sdsNS + "/sa/" + sdsSA}},
+		cred:       &credential{Identities: []string{"spiffe://cluster.local/ns/" + sdsNS + "/sa/" + sdsSA}},
 		warm:       map[string][]warmStep{"warmed": {{t: "SE"}}},
 		warmOrder:  []string{"warmed"},
 		randomMix:  []string{"SE"},
